@@ -175,6 +175,13 @@ def uf_bool(name, *args):
 uf_int = uf_bytes = uf_str = uf_real = uf_bool
 
 
+def undecorated(cls, name):
+    f = getattr(cls, name)
+    while hasattr(f, "__wrapped__"):
+        f = f.__wrapped__
+    return f
+
+
 def clone_class(cls):
     """a fresh copy of a class definition (native counterpart of the interpreter's clone_class)"""
     return type(cls.__name__, cls.__bases__, dict(cls.__dict__))
